@@ -1,0 +1,10 @@
+//go:build verif
+
+package sender
+
+// Verification hook (build tag `verif`): exposes the worker so that a harness can register
+// capturing plugins and drive Process deterministically. Adds no behaviour.
+
+func (s *Sender) VerifWorker() *SenderWorker {
+	return s.worker
+}
